@@ -8,6 +8,9 @@ The observation after each step is what the property talks about:
          (both streams must be the same sequence)
   reg  - core.openflow.connections (public API), as [dpid symbol, connection]
   gone - connections whose socket the controller has shut down or closed
+         each event record also carries what its handler saw at that instant:
+         r = core.openflow.getConnection(event.dpid), t = the socket that
+         received a sendToDPID(event.dpid, ...) issued from inside the handler
   to   - which socket received the bytes handed to sendToDPID (SendTo only)
   ok   - result of sendToDPID
 Values chosen by the code (barrier xid) are read from the bytes it wrote.
@@ -74,11 +77,13 @@ class Adapter(object):
     self.cev = []            # events seen on Connection objects in this step
     self.prev_reg = []
     self.last_reg = []
+    self.reject = None       # connection whose ConnectionUp listener disconnects it
+    self.nprobe = 0
     self.up_order = []       # connections in the order their ConnectionUp was seen
     self.up_dpid = {}
     for cls, k in ((ofmod.ConnectionUp, "Up"), (ofmod.ConnectionDown, "Down"),
                    (ofmod.PortStatus, "PS")):
-      self.nexus.addListener(cls, self._listener(self.nev, k))
+      self.nexus.addListener(cls, self._listener(self.nev, k, False))
 
   def close(self):
     self.env.shutdown()
@@ -87,7 +92,7 @@ class Adapter(object):
   def _cid(self, con):
     return getattr(getattr(con, "sock", None), "cid", -1)
 
-  def _listener(self, sink, k):
+  def _listener(self, sink, k, on_connection):
     def h(event):
       c = self._cid(event.connection)
       if k == "PS":
@@ -98,7 +103,24 @@ class Adapter(object):
           x = -2
         if k == "Up" and getattr(event.ofp, "datapath_id", None) != event.dpid:
           x = -3
-      sink.append({"k": k, "c": c, "x": x})
+      # what a handler sees at this instant: the registry entry of the event's
+      # dpid, and where a send by dpid issued from inside the handler goes
+      dpid = event.dpid
+      reg = core.openflow.getConnection(dpid)
+      r = 0 if reg is None else self._cid(reg)
+      self.nprobe += 1
+      payload = rb.echo_request(b"C09 in-handler %d" % self.nprobe,
+                                xid=0x0c0a0000 + self.nprobe)
+      before = dict((cid, len(sk.out)) for cid, sk in self.env.socks.items())
+      ok = core.openflow.sendToDPID(dpid, payload)
+      hit = [cid for cid, sk in sorted(self.env.socks.items())
+             if payload in sk.out[before[cid]:]]
+      t = hit[0] if len(hit) == 1 else (0 if not hit else -1)
+      if bool(ok) != (r != 0):
+        t = -7                      # result disagrees with the registry it just read
+      sink.append({"k": k, "c": c, "x": x, "r": r, "t": t})
+      if on_connection and k == "Up" and self.reject == c:
+        event.connection.disconnect()       # a component rejecting the switch
     return h
 
   def _attach(self, cid):
@@ -108,7 +130,7 @@ class Adapter(object):
     self.cons[cid] = con
     for cls, k in ((ofmod.ConnectionUp, "Up"), (ofmod.ConnectionDown, "Down"),
                    (ofmod.PortStatus, "PS")):
-      con.addListener(cls, self._listener(self.cev, k))
+      con.addListener(cls, self._listener(self.cev, k, True))
 
   # -- projections
   def _registry(self):
@@ -209,6 +231,15 @@ class Adapter(object):
           err = self._rx(c, rb.barrier_reply(self.barrier[c]))
       else:
         err = self._rx(c, rb.barrier_reply(self._other_xid(c)))
+    elif a == "RxBarrierReject":
+      if c not in self.barrier:
+        err = {"no_barrier_request_sent": c}
+      else:
+        self.reject = c
+        try:
+          err = self._rx(c, rb.barrier_reply(self.barrier[c]))
+        finally:
+          self.reject = None
     elif a == "RxErr":
       if k != "xid" and c not in self.barrier:
         err = {"no_barrier_request_sent": c}
@@ -263,12 +294,8 @@ class Adapter(object):
         payload = rb.echo_request(b"C09 payload %d" % self.n, xid=0x0c090000 + self.n)
         ok = core.openflow.sendToDPID(dpid, payload)
         wrote = self._drain()
-        if not wrote:
-          to = 0
-        elif len(wrote) == 1 and list(wrote.values())[0] == payload:
-          to = list(wrote.keys())[0]
-        else:
-          to = -1
+        hit = [cc for cc, data in sorted(wrote.items()) if payload in rb.split(data)]
+        to = hit[0] if len(hit) == 1 else (0 if not hit else -1)
         if ok not in (True, False):
           ok = repr(ok)
     else:
@@ -312,13 +339,19 @@ class Adapter(object):
     # which one is being replayed must not change the name of the failure.
     implied = self.implied_registry(obs.get("gone", []))
     if implied != obs["reg"]:
+      prev = [list(x) for x in self.prev_reg]
+      for e in self.nev:              # registered within this very step
+        if e["k"] == "Up":
+          prev = [x for x in prev if x[0] != e["x"]] + [[e["x"], e["c"]]]
       sig["registry"] = classify_registry(st["args"].get("c", 0), implied,
-                                          obs["reg"], self.prev_reg)
+                                          obs["reg"], prev)
     else:
       fields = sorted(f for f in exp if obs.get(f) != exp[f])
       sig["fields"] = fields
       if "ev" in fields:
         sig["events"] = classify_events(exp["ev"], obs["ev"])
+        if sig["events"] == "arguments":
+          sig["in_handler"] = classify_handler_view(obs["ev"])
     return sig
 
 
@@ -354,6 +387,19 @@ def classify_registry(actor, exp, obs, prev):
   return sorted(kinds)
 
 
+def classify_handler_view(ev):
+  """Which handler saw a registry that contradicts its own event."""
+  out = set()
+  for e in ev:
+    if e["k"] == "Up" and (e["r"] != e["c"] or e["t"] != e["c"]):
+      out.add("Up:registry_does_not_lead_to_the_announced_connection")
+    if e["k"] == "Down" and (e["r"] == e["c"] or e["t"] == e["c"]):
+      out.add("Down:registry_still_leads_to_the_lost_connection")
+    if e["r"] != e["t"]:
+      out.add(e["k"] + ":send_by_dpid_disagrees_with_registry")
+  return sorted(out) or ["other"]
+
+
 def classify_events(exp, obs):
   if isinstance(obs, dict):
     return "nexus_and_connection_streams_differ"
@@ -386,7 +432,10 @@ def classify_trace(trace, i):
         dp[x["c"]] = x["x"]
         order.append(x["c"])
   implied = implied_registry(order, dp, set(ev["obs"]["gone"]))
-  prev = trace[i - 1]["obs"]["reg"] if i > 0 else []
+  prev = [list(x) for x in (trace[i - 1]["obs"]["reg"] if i > 0 else [])]
+  for x in ev["obs"]["ev"]:
+    if x["k"] == "Up":
+      prev = [y for y in prev if y[0] != x["x"]] + [[x["x"], x["c"]]]
   if implied != sorted(ev["obs"]["reg"]):
     sig["registry"] = classify_registry(ev["args"]["c"], implied, ev["obs"]["reg"], prev)
   else:
